@@ -1,6 +1,6 @@
 /-
 Driver for C29 (manually set outputs behave like naturally completed outputs):
-`Sched3Set` correspondence + judge on the observed trace of the REAL scheduler.
+`Sched3X` (Sched3Set + retry xtriggers) correspondence + judge on the observed trace of the REAL scheduler.
 
 The judge is written from the property text.  It reads the recorded op list (the `cylc set` commands with their
 options), the static instance graph (children per output, prerequisite atoms, outputs, required outputs) and, per
@@ -37,6 +37,8 @@ It never calls a transition function of the model.  For every `cylc set` command
 * `xtrigger-not-satisfied` / `xtrigger-changed`  xtrigger prerequisites (`--pre=xtrigger/<label>`, `xtrigger/all`): the
                            named xtriggers that T carries (all of them with `xtrigger/all`) - the dynamic retry
                            xtriggers included - are satisfied afterwards, no other xtrigger of any pooled task changes;
+every restart
+* `restart-forgets-retry-delay` (recorded finding) a task waiting behind an unsatisfied retry xtrigger still carries it;
 every main loop
 * `ready-not-run`          a pooled task that is waiting with every prerequisite atom and every xtrigger satisfied, not
                            held, released (or within the runahead limit), in a scheduler that is neither paused
@@ -288,8 +290,21 @@ def judgeLoop (pre post : Ob) : Option String :=
         else none
     else none
 
+/-- `restart-forgets-retry-delay` (recorded finding): judged on a restart - a task that waits behind an unsatisfied
+retry xtrigger still carries that xtrigger after the restart (the delay the user can end with `cylc set
+--pre=xtrigger/...` is not silently cut short) -/
+def judgeRestart (pre post : Ob) : Option String :=
+  firstSome pre.xtr fun e =>
+    if e.2.2 then none else
+    match post.get? e.1 with
+    | none => none
+    | some t1 =>
+      if t1.st == "waiting" && !((post.xtrOf e.1).any fun l => l.1 == e.2.1) then
+        some s!"restart-forgets-retry-delay: {showKey e.1} was waiting for its retry xtrigger {e.2.1} before the restart and no longer carries it afterwards"
+      else none
+
 /-- keys of recorded findings (findings/C29.json) -/
-def knownKeys : List String := ["set-submit-failed-ignored", "set-db-row-missing"]
+def knownKeys : List String := ["set-submit-failed-ignored", "set-db-row-missing", "restart-forgets-retry-delay"]
 
 def judge (g : Graph) (ops : List Json) (obs : List Json) : Option String :=
   let rec go (idx : Nat) : List Json → List Json → Option String
@@ -301,7 +316,7 @@ def judge (g : Graph) (ops : List Json) (obs : List Json) : Option String :=
         | some c =>
           if !isInst g c.key then none
           else if c.pres.isEmpty then judgeSetOut g c a b else judgeSetPre g c a b
-        | none => if opName op == "loop" then judgeLoop a b else none
+        | none => if opName op == "loop" then judgeLoop a b else if opName op == "restart" then judgeRestart a b else none
       match r with
       | some w =>
         -- keep the finding key in front
